@@ -399,12 +399,17 @@ pub fn check_forget_term(l8: &PLax<u8, u8>, loc: &mut Local) {
 /// all programs: `inputs` NewVar statements interleaved anywhere, up to `apps` applications drawn
 /// from the given statement kinds
 pub fn programs(max_new: usize, apps: usize, rich: bool) -> Vec<Prog> {
+    programs_with(max_new, apps, rich, 2)
+}
+
+/// as `programs`, with source / target lists of length at most `close`
+pub fn programs_with(max_new: usize, apps: usize, rich: bool, close: usize) -> Vec<Prog> {
     let mut out = vec![];
-    fn rec(stmts: &mut Vec<Stmt>, labels: &mut Vec<u8>, news: usize, apps: usize, max_new: usize, max_apps: usize, rich: bool, out: &mut Vec<Prog>) {
+    fn rec(stmts: &mut Vec<Stmt>, labels: &mut Vec<u8>, news: usize, apps: usize, max_new: usize, max_apps: usize, rich: bool, close: usize, out: &mut Vec<Prog>) {
         // close the program: choose sources and targets among the variables
         let nv = labels.len();
-        for s in ohmc_core::uni::lists(nv, 2) {
-            for t in ohmc_core::uni::lists(nv, 2) {
+        for s in ohmc_core::uni::lists(nv, close) {
+            for t in ohmc_core::uni::lists(nv, close) {
                 out.push(Prog { stmts: stmts.clone(), sources: s.clone(), targets: t.clone(), leak: false });
             }
         }
@@ -412,7 +417,7 @@ pub fn programs(max_new: usize, apps: usize, rich: bool) -> Vec<Prog> {
             for l in 0..2u8 {
                 stmts.push(Stmt::NewVar(l));
                 labels.push(l);
-                rec(stmts, labels, news + 1, apps, max_new, max_apps, rich, out);
+                rec(stmts, labels, news + 1, apps, max_new, max_apps, rich, close, out);
                 labels.pop();
                 stmts.pop();
             }
@@ -424,7 +429,7 @@ pub fn programs(max_new: usize, apps: usize, rich: bool) -> Vec<Prog> {
                     for j in 0..nv {
                         stmts.push(Stmt::Bin(k, i, j));
                         labels.push(bin_label(k, labels[i], labels[j]).0);
-                        rec(stmts, labels, news, apps + 1, max_new, max_apps, rich, out);
+                        rec(stmts, labels, news, apps + 1, max_new, max_apps, rich, close, out);
                         labels.pop();
                         stmts.pop();
                     }
@@ -437,7 +442,7 @@ pub fn programs(max_new: usize, apps: usize, rich: bool) -> Vec<Prog> {
                 for i in 0..nv {
                     stmts.push(Stmt::Un(k, i));
                     labels.push(un_label(k, labels[i]).0);
-                    rec(stmts, labels, news, apps + 1, max_new, max_apps, rich, out);
+                    rec(stmts, labels, news, apps + 1, max_new, max_apps, rich, close, out);
                     labels.pop();
                     stmts.pop();
                 }
@@ -452,7 +457,7 @@ pub fn programs(max_new: usize, apps: usize, rich: bool) -> Vec<Prog> {
                     let rts: Vec<u8> = rts.iter().map(|&x| x as u8).collect();
                     stmts.push(Stmt::Op(vs.clone(), rts.clone(), 0));
                     labels.extend(rts.iter().cloned());
-                    rec(stmts, labels, news, apps + 1, max_new, max_apps, rich, out);
+                    rec(stmts, labels, news, apps + 1, max_new, max_apps, rich, close, out);
                     for _ in 0..rts.len() {
                         labels.pop();
                     }
@@ -461,14 +466,14 @@ pub fn programs(max_new: usize, apps: usize, rich: bool) -> Vec<Prog> {
                 if rich || vs.is_empty() {
                     stmts.push(Stmt::FnOp(vs.clone(), 1, 1));
                     labels.push(1);
-                    rec(stmts, labels, news, apps + 1, max_new, max_apps, rich, out);
+                    rec(stmts, labels, news, apps + 1, max_new, max_apps, rich, close, out);
                     labels.pop();
                     stmts.pop();
                 }
             }
         }
     }
-    rec(&mut vec![], &mut vec![], 0, 0, max_new, apps, rich, &mut out);
+    rec(&mut vec![], &mut vec![], 0, 0, max_new, apps, rich, close, &mut out);
     out
 }
 
